@@ -104,9 +104,12 @@ def spanStr (s : Text) : Text × Text :=
     (`''` stands for an apostrophe inside). -/
 def spanQuote : Text → Text × Text
   | [] => ([], [])
-  | '\'' :: '\'' :: s => let r := spanQuote s; ('\'' :: '\'' :: r.1, r.2)
-  | '\'' :: s => (['\''], s)
-  | c :: s => let r := spanQuote s; (c :: r.1, r.2)
+  | c :: s =>
+    if c = '\'' then
+      match s with
+      | [] => (['\''], [])
+      | d :: s' => if d = '\'' then let r := spanQuote s'; ('\'' :: '\'' :: r.1, r.2) else (['\''], d :: s')
+    else let r := spanQuote s; (c :: r.1, r.2)
 
 /-- Tokens of a formula text (without the leading `=`): text literals, quoted or bare sheet prefixes,
     function names, cell references, anything else.  `fuel ≥ length` suffices. -/
@@ -119,15 +122,14 @@ def scanF : Nat → Text → List FTok
       .lit ('"' :: r.1) :: scanF f r.2
     else if c = '\'' then
       let r := spanQuote s
-      match r.2 with
-      | '!' :: rest => .pfx ('\'' :: r.1) :: scanF f rest
-      | rest => .lit ('\'' :: r.1) :: scanF f rest
+      if r.2.head? = some '!' then .pfx ('\'' :: r.1) :: scanF f (r.2.drop 1)
+      else .lit ('\'' :: r.1) :: scanF f r.2
     else if isWordChar c then
       let w := c :: s.takeWhile isWordChar
-      match s.dropWhile isWordChar with
-      | '!' :: rest => .pfx w :: scanF f rest
-      | '(' :: rest => .lit w :: .lit ['('] :: scanF f rest
-      | rest => (parseRef w).getD (.lit w) :: scanF f rest
+      let rest := s.dropWhile isWordChar
+      if rest.head? = some '!' then .pfx w :: scanF f (rest.drop 1)            -- a sheet prefix
+      else if rest.head? = some '(' then .lit w :: scanF f rest                  -- a function name
+      else (parseRef w).getD (.lit w) :: scanF f rest                            -- a reference, or not
     else .lit [c] :: scanF f s
 
 def scan (s : Text) : List FTok := scanF s.length s
